@@ -22,6 +22,7 @@ import VsgProofs.Lemmas.BaseCaseTok
 import VsgProofs.Lemmas.BaseCaseAscii
 import VsgProofs.Lemmas.BaseStructDispatch
 import VsgProofs.Lemmas.BaseMultiDispatch
+import VsgProofs.Lemmas.BFull2Indent   -- wp2_bfull2
 namespace Vsgm.C03
 open Vsgm
 
@@ -987,5 +988,48 @@ theorem multi_owners_used :
   decide +kernel
 
 /-! ### END ag_bmulti -/
+
+/-! ### BEGIN wp2_bfull2 (indent family, whole rule) -/
+
+section wp2_bfull2
+open BFull2
+
+/-- **whole-rule layout-only of `token_indent` (93 rules)**: for every token list (no pseudo tokens; tokens whose
+    id is `parser.whitespace` have kind `ws`), every indent assignment, `indent_size` and both documented styles the
+    file after `Rule.fix` has exactly the non-layout tokens of the file before, in the same order — no extractor or
+    analysis contract left (`ToiOk` of `bfix_indent_*` is now a theorem about the model's own extractor) -/
+theorem bfull2_indent_layoutOnly (r : RuleCfg) (uid : Tok → Option TM.Key) (P : Params) (ind : Oracle) (f : List Tok)
+    (hv : P.variant = .plain) (hcs : CsOk P.cs) (hs : StyleOk P)
+    (hb : ∀ t ∈ f, t.isBof = false) (hk : ∀ t ∈ f, isWsU uid t = true → t.kind = .ws) :
+    LayoutOnly f (ruleFix r (sem uid P ind) none f).1 := by
+  unfold LayoutOnly
+  by_cases hf : r.fixable = true
+  · have e : (ruleFix r (sem uid P ind) none f).1 = fixAll uid P ind f := by
+      simp [ruleFix, hf, filterFixOnly, fixAll]
+    rw [e]
+    exact (fixAll_hom uid P ind nonLayout nonLayout_append
+      (by intro t ht; simp [nonLayout, Tok.isLayout, Kind.isLayout, ht]) hv hcs hs f hb hk).symm
+  · have : r.fixable = false := by simpa using hf
+    simp [ruleFix, this]
+
+/-- … hence the code sequence and the comment sequence are untouched (C01 / C02 for the whole rule) -/
+theorem bfull2_indent_code_comments (fold : Str → Str) (r : RuleCfg) (uid : Tok → Option TM.Key) (P : Params) (ind : Oracle)
+    (f : List Tok) (hv : P.variant = .plain) (hcs : CsOk P.cs) (hs : StyleOk P)
+    (hb : ∀ t ∈ f, t.isBof = false) (hk : ∀ t ∈ f, isWsU uid t = true → t.kind = .ws) :
+    codeSeq fold f = codeSeq fold (ruleFix r (sem uid P ind) none f).1 ∧
+      commentSeq f = commentSeq (ruleFix r (sem uid P ind) none f).1 :=
+  ⟨(bfull2_indent_layoutOnly r uid P ind f hv hcs hs hb hk).codeSeq fold,
+   (bfull2_indent_layoutOnly r uid P ind f hv hcs hs hb hk).commentSeq⟩
+
+/-- non-vacuity: the fix changes the file, its non-layout tokens stay -/
+example :
+    let f : List Tok := [⟨9, .code, "a".toList⟩, ⟨1, .cr, []⟩, ⟨2, .ws, " ".toList⟩, ⟨3, .code, "signal".toList⟩]
+    nonLayout (fixAll toyUid toyP (fun _ => some 1) f) = nonLayout f ∧ fixAll toyUid toyP (fun _ => some 1) f ≠ f := by
+  decide +kernel
+
+end wp2_bfull2
+
+/-! ### END wp2_bfull2 -/
+
 
 end Vsgm.C03
